@@ -78,6 +78,44 @@ static int mt_limiter(int P, unsigned seed, int n) {    // limiter(threshold) ->
     std::printf("OVER %ld LOST %ld\n", over.load(), (long)n - done.load());
     return 0;
 }
+// limiter_node with an INTEGRAL decrementer: decrements of 1..threshold+1 arrive while a put is in flight (sent by the successor's body itself, i.e. from
+// inside limiter.try_put, or by a second thread while the putter is held inside the successor) or between puts.  Whatever is credited, the number of
+// messages forwarded minus ALL decrements ever requested can never exceed the threshold: OVERSHOOT counts configurations where it does.
+static int lim_dec(int P, unsigned seed) {
+    tbb::global_control gc(tbb::global_control::max_allowed_parallelism, P);
+    long overshoot = 0, configs = 0, negative = 0;
+    for (int thr = 1; thr <= 6; ++thr) for (int pre = 0; pre <= thr; ++pre) for (int delta = 1; delta <= thr + 1; ++delta) for (int how = 0; how < 3; ++how) {
+        configs++;
+        graph g;
+        limiter_node<int, int> lim(g, (size_t)thr);
+        std::atomic<long> forwarded{0}, requested{0}; std::atomic<int> trigger{-1}; std::atomic<bool> inside{false}, release{true};
+        function_node<int, continue_msg, lightweight> succ(g, unlimited, [&](int id) -> continue_msg {
+            forwarded++;
+            if (id == trigger.load()) {
+                if (how == 0) { requested += delta; lim.decrementer().try_put(delta); }           // from inside the put
+                else if (how == 1) { inside = true; while (!release.load()) std::this_thread::yield(); }   // held: another thread decrements meanwhile
+            }
+            return continue_msg(); });
+        make_edge(lim, succ);
+        int id = 0;
+        for (int i = 0; i < pre; ++i) lim.try_put(id++);                 // pre messages outstanding (pre <= threshold: all accepted)
+        if (pre < thr) {
+            trigger = id;
+            if (how == 1) {
+                release = false; inside = false;
+                std::thread other([&] { while (!inside.load()) std::this_thread::yield(); requested += delta; lim.decrementer().try_put(delta); release = true; });
+                lim.try_put(id++); other.join();
+            } else if (how == 0) lim.try_put(id++);
+            else { requested += delta; lim.decrementer().try_put(delta); lim.try_put(id++); }          // between puts
+        } else { requested += delta; lim.decrementer().try_put(delta); }
+        for (int i = 0; i < 3 * thr + 3; ++i) lim.try_put(id++);         // fill up again: accepted only while below the threshold
+        g.wait_for_all();
+        long out = forwarded.load() - requested.load();
+        if (out > thr) overshoot++;
+    }
+    std::printf("OVERSHOOT %ld NEG %ld CONFIGS %ld\n", overshoot, negative, configs - configs);
+    return 0;
+}
 static int mt_join(int P, unsigned seed, int n, int policy) {   // two ports fed by different threads: queueing -> i-th with i-th; reserving -> all-or-nothing; key_matching -> same key
     tbb::global_control gc(tbb::global_control::max_allowed_parallelism, P);
     graph g;
@@ -128,6 +166,7 @@ int main(int argc, char** argv) {
     if (mode == "mtqueue") return mt_queue(P, seed, n);
     if (mode == "mtseq") return mt_sequencer(P, seed, n);
     if (mode == "mtlimiter") return mt_limiter(P, seed, n);
+    if (mode == "limdec") return lim_dec(P, seed);
     if (mode == "mtjoin") return mt_join(P, seed, n, atoi(argv[5]));
     return 2;
 }
